@@ -293,6 +293,10 @@ def state_types(sc) -> tuple[dict, dict, dict]:
             pvars[c["name"]] = tname
         else:
             ivars[c["name"]] = tname
+        if "state_default" in c:
+            # a default configured for a variable the release file supplies as well (legacy configurations give every
+            # IBM variable the default 0): the value of the release row wins
+            defaults[c["name"]] = c["state_default"]
     ibm = sc.get("ibm", {})
     if ibm.get("age"):
         ivars["age"] = "float"
